@@ -1,5 +1,6 @@
 import DnsVerif.Lemmas.ApiMachines
 import DnsVerif.Lemmas.ApiExtra
+import DnsVerif.Lemmas.ExtraC
 
 /-! # C12 — validated value types can never hold an invalid value
 
@@ -7,7 +8,10 @@ For every finite history of public constructor / setter / append calls (an arbit
 length bound) the value satisfies its documented constraint, stated independently of the checking code
 (`ECS.Inv`, `APItem.Inv`, `Cookie.Inv`, `DomainName.Inv` in Lemmas/ApiMachines.lean: bit-level "no address
 bit at a position ≥ prefix", server cookie 8..=32 octets, labels 1..=63 octets and ≤ 255 wire octets), and a
-call that reports an error leaves the value exactly as it was. Model: Model/Api.lean (tied to
+call that reports an error leaves the value exactly as it was. The histories may start from ANY value satisfying
+the constraint (`*_reachable_inv_from`), and every other way to obtain a value (text parsing, the wire decoder)
+yields such a value (`parsed_name_inv`, `decoded_*_inv`, `*_then_history_inv`). `NonEmptyVec` is the model type
+`NEV` (`nev_*`). Model: Model/Api.lean (tied to
 src/rr/edns/rfc_7871.rs, rfc_7873.rs, src/rr/rfc_3123.rs, src/label.rs, src/domain_name.rs by the `api.*`
 correspondence stream). -/
 
@@ -122,6 +126,122 @@ theorem tag_valid {s t : Bytes} (h : StrCheck.run .tag s = .ok t) :
 
 theorem psdn_digits (s t : Bytes) : StrCheck.run .psdn s = .ok t ↔ t = s ∧ ∀ b ∈ s, isDigitB b = true := psdn_ok_iff s t
 theorem isdn_digits (s t : Bytes) : StrCheck.run .isdn s = .ok t ↔ t = s ∧ ∀ b ∈ s, isDigitB b = true := isdn_ok_iff s t
+
+/-! ## Any start value, any history ("whatever sequence of public constructors, setters, appends or decodes")
+
+The `*_reachable_inv` theorems above start from `new` / the root. The general form: every value that satisfies the
+constraint keeps it under every finite history, and every OTHER way to obtain a value (text parsing, the wire
+decoder) produces a value that satisfies the constraint. -/
+
+theorem name_reachable_inv_from (n : Name) (ls : List Bytes) (h : DomainName.Inv n) :
+    DomainName.Inv (DomainName.run n ls) := DomainName.reachable_inv n ls h
+
+theorem ecs_reachable_inv_from (s : ECS) (ops : List EcsOp) (h : s.Inv) : (s.run ops).Inv := ECS.reachable_inv s ops h
+
+theorem apitem_reachable_inv_from (s : APItem) (ops : List ApOp) (h : s.Inv) : (s.run ops).Inv :=
+  APItem.reachable_inv s ops h
+
+theorem cookie_reachable_inv_from (s : Cookie) (ops : List CookieOp) (h : s.Inv) : (s.run ops).Inv :=
+  Cookie.reachable_inv s ops h
+
+/-- start state: a name parsed from text (`FromStr`) -/
+theorem parsed_name_inv {s : Bytes} {n : Name} (h : parseName s = .ok n) : DomainName.Inv n := ExtraC.parseName_inv h
+
+/-- start state: a name decoded from any byte string -/
+theorem decoded_name_inv {b : Bytes} {n : Name} {d : D} (h : decodeName b = .ok (n, d)) : DomainName.Inv n :=
+  ApiExtra.decodeName_inv h
+
+/-- start state: a name decoded at any decoder state (inside questions, records, RDATA) -/
+theorem decoded_name_inv_at {d d' : D} {n : Name} (h : d.name = .ok (n, d')) : DomainName.Inv n :=
+  ExtraC.name_inv_of_dec h
+
+/-- start state: a decoded ECS option (the value `ECS::new` built inside the decoder) -/
+theorem decoded_ecs_option_inv {d d' : D} {o : EdnsOpt} (h : decEcs d = .ok (o, d')) :
+    ∃ fam src scope addr, o = .ecs fam src scope addr ∧ ECS.Inv ⟨src, scope, addr⟩ := ExtraC.decEcs_inv h
+
+/-- start state: a decoded APL item -/
+theorem decoded_apitem_inv {d d' : D} {it : APItem} (h : decApItem d = .ok (it, d')) : it.Inv := ExtraC.decApItem_inv h
+
+/-- … and every item of a decoded APL list -/
+theorem decoded_apitems_inv {fuel : Nat} {d d' : D} {l : List APItem} (h : decApItems fuel d = .ok (l, d')) :
+    ∀ it ∈ l, it.Inv := ExtraC.decApItems_inv fuel h
+
+/-- start state: a decoded cookie option -/
+theorem decoded_cookie_inv {c c' : D} {o : EdnsOpt} (hc : D.Ok c) (h : decCookie c = .ok (o, c')) :
+    ∃ client server, o = .cookie client server ∧ client.length = 8 ∧ Cookie.Inv ⟨client, server⟩ :=
+  ExtraC.decCookie_inv hc h
+
+/-- DomainName: parse, then any `append_label` history -/
+theorem name_parse_then_history_inv {s : Bytes} {n : Name} (h : parseName s = .ok n) (ls : List Bytes) :
+    DomainName.Inv (DomainName.run n ls) := name_reachable_inv_from n ls (parsed_name_inv h)
+
+/-- DomainName: decode, then any `append_label` history -/
+theorem name_decode_then_history_inv {b : Bytes} {n : Name} {d : D} (h : decodeName b = .ok (n, d)) (ls : List Bytes) :
+    DomainName.Inv (DomainName.run n ls) := name_reachable_inv_from n ls (decoded_name_inv h)
+
+/-- ECS: decode, then any setter history -/
+theorem ecs_decode_then_history_inv {d d' : D} {o : EdnsOpt} (h : decEcs d = .ok (o, d')) :
+    ∃ fam src scope addr, o = .ecs fam src scope addr ∧ ∀ ops : List EcsOp, ((⟨src, scope, addr⟩ : ECS).run ops).Inv := by
+  obtain ⟨fam, src, scope, addr, ho, hinv⟩ := decoded_ecs_option_inv h
+  exact ⟨fam, src, scope, addr, ho, fun ops => ecs_reachable_inv_from _ ops hinv⟩
+
+/-- APItem: decode, then any setter history -/
+theorem apitem_decode_then_history_inv {d d' : D} {it : APItem} (h : decApItem d = .ok (it, d')) (ops : List ApOp) :
+    (it.run ops).Inv := apitem_reachable_inv_from it ops (decoded_apitem_inv h)
+
+/-- Cookie: decode, then any setter history -/
+theorem cookie_decode_then_history_inv {c c' : D} {o : EdnsOpt} (hc : D.Ok c) (h : decCookie c = .ok (o, c')) :
+    ∃ client server, o = .cookie client server ∧ ∀ ops : List CookieOp, ((⟨client, server⟩ : Cookie).run ops).Inv := by
+  obtain ⟨client, server, ho, _, hinv⟩ := decoded_cookie_inv hc h
+  exact ⟨client, server, ho, fun ops => cookie_reachable_inv_from _ ops hinv⟩
+
+/-! ## NonEmptyVec as a value type (`NEV` in Model/Api.lean: `TryFrom<Vec<T>>`, `Into<Vec<T>>`) -/
+
+/-- `NonEmptyVec::try_from` accepts exactly the non-empty vectors and stores them unchanged -/
+theorem nev_new_ok_iff {α : Type} (l : List α) (v : NEV α) : NEV.new l = .ok v ↔ v.items = l ∧ l ≠ [] := by
+  cases l with
+  | nil => simp [NEV.new]
+  | cons a r =>
+    cases v with
+    | mk items => simp [NEV.new, eq_comm]
+
+/-- the only error is `txtEmpty`, exactly for the empty vector -/
+theorem nev_new_err_iff {α : Type} (l : List α) (e : DErr) : NEV.new (α := α) l = .error e ↔ e = .txtEmpty ∧ l = [] := by
+  cases l with
+  | nil => simp [NEV.new, eq_comm]
+  | cons a r => simp [NEV.new]
+
+/-- every constructed value satisfies the documented constraint (there is no setter: the field is private) -/
+theorem nev_inv {α : Type} {l : List α} {v : NEV α} (h : NEV.new l = .ok v) : v.Inv := by
+  obtain ⟨h1, h2⟩ := (nev_new_ok_iff l v).mp h
+  unfold NEV.Inv; rw [h1]; exact h2
+
+/-- `Vec::from(NonEmptyVec::try_from(l)?) = l` -/
+theorem nev_roundtrip {α : Type} {l : List α} {v : NEV α} (h : NEV.new l = .ok v) : v.toList = l :=
+  ((nev_new_ok_iff l v).mp h).1
+
+/-- the string list of a decoded TXT record is a value of the type (for every byte string) -/
+theorem decoded_txt_is_nev {b : Bytes} {rr : RR} {d : D} (h : decodeRR b = .ok (rr, d)) (hty : rr.ty = 16) :
+    ∃ l v, rr.rd = .fields [.strs l] ∧ NEV.new l = .ok v := by
+  obtain ⟨l, hrd, hne⟩ := decoded_txt_nonempty h hty
+  exact ⟨l, ⟨l⟩, hrd, (nev_new_ok_iff l ⟨l⟩).mpr ⟨rfl, hne⟩⟩
+
+/-! non-vacuity: start values that are NOT obtained from `new` / the root -/
+example : parseName [119, 119, 119, 46, 97] = .ok [[119, 119, 119], [97]] := rfl
+example : DomainName.Inv (DomainName.run [[119, 119, 119], [97]] [[98], []]) :=
+  name_parse_then_history_inv (s := [119, 119, 119, 46, 97]) rfl _
+example : ECS.Inv ⟨8, 0, [10, 0, 0, 0]⟩ := (ECS.inv_iff _).mpr rfl
+/-! a decoded ECS option (family 1, source 8, scope 0, one address octet) and a decoded negated APL item 10/8 -/
+set_option maxRecDepth 8192 in
+example : decEcs { buf := [0, 1, 8, 0, 10], off := 0, lim := 5, cost := 0 } =
+    .ok (.ecs 1 8 0 [10, 0, 0, 0], { buf := [0, 1, 8, 0, 10], off := 5, lim := 5, cost := 5 }) := rfl
+set_option maxRecDepth 8192 in
+example (ops : List ApOp) : ((⟨1, 8, true, [10, 0, 0, 0]⟩ : APItem).run ops).Inv :=
+  apitem_decode_then_history_inv (d := { buf := [0, 1, 8, 129, 10], off := 0, lim := 5, cost := 0 })
+    (d' := { buf := [0, 1, 8, 129, 10], off := 5, lim := 5, cost := 6 }) rfl ops
+example : NEV.new [1, 2, 3] = .ok (⟨[1, 2, 3]⟩ : NEV Nat) := rfl
+example : NEV.new ([] : List Nat) = .error .txtEmpty := rfl
+example : (⟨[1, 2, 3]⟩ : NEV Nat).Inv := nev_inv (l := [1, 2, 3]) rfl
 
 /-! non-vacuity: a concrete ECS history (10.0.0.0/8, then scope 24 accepted, then source 33 rejected) -/
 example : ECS.new 8 0 [10, 0, 0, 0] = .ok ⟨8, 0, [10, 0, 0, 0]⟩ := rfl
